@@ -541,6 +541,40 @@ func (sc *SpecCtx) quant(kind string, x *ast.CallExpr) SV {
 	return SV{Term{fmt.Sprintf("(exists ((%s Int)) %s)", bv.S, and(rng, body).S), sBool}, types.Typ[types.Bool]}
 }
 
+// forallv(func(k T) bool { return ... }): universal quantification over all values of sort(T).
+func (sc *SpecCtx) quantv(x *ast.CallExpr) SV {
+	if len(x.Args) != 1 {
+		sc.fail("forallv(func(k T) bool {...})")
+	}
+	fl, ok := x.Args[0].(*ast.FuncLit)
+	if !ok || len(fl.Type.Params.List) != 1 || len(fl.Type.Params.List[0].Names) != 1 || len(fl.Body.List) != 1 {
+		sc.fail("forallv: argument must be func(k T) bool { return ... }")
+	}
+	rs, ok := fl.Body.List[0].(*ast.ReturnStmt)
+	if !ok || len(rs.Results) != 1 {
+		sc.fail("forallv: body must be a single return")
+	}
+	t := sc.typeByExpr(fl.Type.Params.List[0].Type)
+	if t == nil {
+		sc.fail("forallv: unknown type")
+	}
+	name := fl.Type.Params.List[0].Names[0].Name
+	sc.q().nfresh++
+	srt := sc.q().so.sortOf(t)
+	bv := Term{fmt.Sprintf("%s!q%d", name, sc.q().nfresh), srt}
+	saved, had := sc.vars[name]
+	sc.vars[name] = SV{bv, t}
+	sc.q().pureDepth++
+	body := sc.eval(rs.Results[0]).t
+	sc.q().pureDepth--
+	if had {
+		sc.vars[name] = saved
+	} else {
+		delete(sc.vars, name)
+	}
+	return SV{Term{fmt.Sprintf("(forall ((%s %s)) %s)", bv.S, srt, body.S), sBool}, types.Typ[types.Bool]}
+}
+
 func (sc *SpecCtx) call(x *ast.CallExpr) SV {
 	q := sc.q()
 	boolT := types.Typ[types.Bool]
@@ -558,6 +592,24 @@ func (sc *SpecCtx) call(x *ast.CallExpr) SV {
 				return v
 			case "forall", "exists":
 				return sc.quant(id.Name, x)
+			case "forallv":
+				return sc.quantv(x)
+			case "same":
+				a, b := sc.eval(x.Args[0]), sc.eval(x.Args[1])
+				return SV{eq(a.t, b.t), boolT}
+			case "pair2":
+				a, b := sc.eval(x.Args[0]), sc.eval(x.Args[1])
+				as := arrSort(sInt, sInt)
+				return SV{store(store(Term{"((as const " + as + ") 0)", as}, tInt(0), a.t), tInt(1), b.t), types.NewArray(types.Typ[types.Uint8], 2)}
+			case "has":
+				// has(m, k): key present in map
+				m, k := sc.eval(x.Args[0]), sc.eval(x.Args[1])
+				mt, ok := m.typ.Underlying().(*types.Map)
+				if !ok {
+					sc.fail("has: not a map")
+				}
+				hk, _ := sc.ex.mapKeys(mt)
+				return SV{and(not(eq(m.t, tInt(0))), sel(sel(q.heapGet(sc.curHeap(), hk), m.t), k.t)), boolT}
 			case "implies":
 				return SV{implies(sc.eval(x.Args[0]).t, sc.eval(x.Args[1]).t), boolT}
 			case "iff":
@@ -626,6 +678,34 @@ func (sc *SpecCtx) call(x *ast.CallExpr) SV {
 				a, b := sc.eval(x.Args[0]), sc.eval(x.Args[1])
 				return SV{q.strEq(a.t, b.t), boolT}
 			}
+			if d := sc.ex.P.contracts.Defines[sc.pkg.Pkg.Path()+"."+id.Name]; d != nil {
+				if len(d.Params) != len(x.Args) {
+					sc.fail("define %s: want %d args", d.Name, len(d.Params))
+				}
+				saved := map[string]*SV{}
+				var argv []SV
+				for _, a := range x.Args {
+					argv = append(argv, sc.eval(a))
+				}
+				for i, pn := range d.Params {
+					if old, ok := sc.vars[pn]; ok {
+						o := old
+						saved[pn] = &o
+					} else {
+						saved[pn] = nil
+					}
+					sc.vars[pn] = argv[i]
+				}
+				v := sc.eval(d.Body)
+				for pn, o := range saved {
+					if o == nil {
+						delete(sc.vars, pn)
+					} else {
+						sc.vars[pn] = *o
+					}
+				}
+				return v
+			}
 			// package-level function
 			if f := sc.pkg.Func(id.Name); f != nil {
 				var args []SV
@@ -643,6 +723,17 @@ func (sc *SpecCtx) call(x *ast.CallExpr) SV {
 			if _, shadow := sc.vars[id.Name]; !shadow {
 				if p := sc.lookupPkg(id.Name); p != nil {
 					sp := sc.ex.P.prog.Package(p)
+					if d := sc.ex.P.contracts.Defines[p.Path()+"."+sel.Sel.Name]; d != nil && sp != nil {
+						var argv []SV
+						for _, a := range x.Args {
+							argv = append(argv, sc.eval(a))
+						}
+						sub := &SpecCtx{ex: sc.ex, pkg: sp, vars: map[string]SV{}, heap: sc.heap, old: sc.old, clause: sc.clause, inOld: sc.inOld}
+						for i, pn := range d.Params {
+							sub.vars[pn] = argv[i]
+						}
+						return sub.eval(d.Body)
+					}
 					if sp != nil {
 						if f := sp.Func(sel.Sel.Name); f != nil {
 							var args []SV
